@@ -72,7 +72,7 @@ def aspectsOf : String → List Aspect
   | "C02" => [.orig]
   | "C03" => [.sigs, .header]
   | "C04" => [.header]
-  | "C05" => [.attrs, .header, .bodies]
+  | "C05" => [.attrs, .header, .bodies, .sigs]
   | "C06" => [.header, .sigs, .bodies]
   | "C07" => [.header, .sigs, .bodies, .vis]
   | "C08" => [.sigs, .vis, .header]
@@ -117,7 +117,7 @@ def evalAll (v : Variant) (attr : Toks) (item : Item) (input : Toks) (m : Outcom
           row "C03" (P_C03 v attr item),
           row "C04" (P_C04 v attr item),
           -- second stage of a concrete-dependency fn: `Impl<T>` must forward to `T: Trait`
-          row "C05" (if (metaGet info "nested").isSome then P_C06 attr item else P_C05 v attr item),
+          row "C05" (if (metaGet info "nested").isSome then P_C06 attr item else P_C05_full v attr item),
           row "C06" (P_C06 attr item),
           row "C07" (P_C07 attr item),
           row "C08" (P_C08 attr item (metaList info "fns")),
@@ -141,12 +141,20 @@ def hexDigit (n : Nat) : Char := if n < 10 then Char.ofNat (48 + n) else Char.of
 def hexOf (s : String) : String :=
   String.ofList (s.toUTF8.toList.flatMap (fun b => [hexDigit (b.toNat / 16), hexDigit (b.toNat % 16)]))
 
-/-- C15 is about every outcome, not only successful expansions -/
-def evalC15 (attr : Toks) (item : Item) (m : Outcome) (r : Real) : String :=
+def parseLocus (s : String) : Option Locus :=
+  match s.splitOn ":" with
+  | ["call"] => some .callSite
+  | ["attr", a, n] => do some (.attr (← a.toNat?) (← n.toNat?))
+  | ["item", a, n] => do some (.item (← a.toNat?) (← n.toNat?))
+  | _ => none
+
+/-- C15 is about every outcome, not only successful expansions.  `cmp`: the positions of the
+    model's printed item are those of the input text (print round trip, syn's printer stable) -/
+def evalC15 (v : Variant) (attr : Toks) (item : Item) (m : Outcome) (r : Real) (cmp : Bool) : String :=
   let (rp, rd, parsed) : Bool × Option (List String) × Bool :=
     match r with
     | .ok _ rout => (false, none, rout.parsed)
-    | .diag msgs => (false, some msgs, true)
+    | .diag msgs _ => (false, some msgs, true)
     | .panic _ => (true, none, true)
   let (mp, md) : Bool × Option (List String) :=
     match m with
@@ -154,9 +162,18 @@ def evalC15 (attr : Toks) (item : Item) (m : Outcome) (r : Real) : String :=
     | .diag msg => (false, some [msg])
     | .synErr => (false, match rd with | some msgs => some msgs | none => some ["<syn>"])   -- syn's message is not modelled
     | .panic _ => (true, none)
-  let pm := P_C15 attr item mp md true
-  let pr := P_C15 attr item rp rd parsed
-  let msg := match r with | .diag (x :: _) => hexOf x | .panic x => hexOf x | _ => ""
-  s!"C15=1{b3 pm}{b3 pr} msg={msg}"
+  -- where the diagnostic points
+  let mloc : Option Locus := match m with | .diag _ => diagLocus v attr item | _ => none
+  let rlocS : String := match r with | .diag [_] [l] => l | _ => "-"
+  let rloc : Option Locus := parseLocus rlocS
+  let mAt : Bool := match m with | .diag msg => P_C15_at attr item (some (msg, mloc)) | _ => true
+  let rAt : Bool := match r with | .diag [msg] _ => !cmp || P_C15_at attr item (some (msg, rloc)) | _ => true
+  let locK : Bool := match m, r with
+    | .diag _, .diag [_] _ => !cmp || decide (mloc = rloc)
+    | _, _ => true
+  let pm := P_C15 attr item mp md true && mAt
+  let pr := P_C15 attr item rp rd parsed && rAt
+  let msg := match r with | .diag (x :: _) _ => hexOf x | .panic x => hexOf x | _ => ""
+  s!"C15={b3 locK}{b3 pm}{b3 pr} msg={msg} mloc={match mloc with | some l => l.show | none => "-"} rloc={rlocS}"
 
 end Entrait.Obs
